@@ -61,7 +61,9 @@ Descs == { D(NONE, FALSE), D("some text", FALSE), D("<U1> text <U1>", FALSE), D(
 F(t, v) == [kind |-> "free", text |-> t, value |-> v]
 FreeLines == { F("// plain text", "plain text"), F("//", ""), F("// ", ""), F("//nospace", "nospace"), F("// @", "@"),
                F("//@Route(/x)", "@Route(/x)"), F("// text @Route(/x)", "text @Route(/x)"), F("// @Route(a.b)", "@Route(a.b)"),
-               F("//  @Route(/x)", "@Route(/x)"), F("// <U1> free", "<U1> free"), F("// @Route()", "@Route()") }
+               F("//  @Route(/x)", "@Route(/x)"), F("// <U1> free", "<U1> free"), F("// @Route()", "@Route()"),
+               \* content that itself starts or ends with a slash: only the comment marker and the blanks around the content go
+               F("// /healthz is the probe", "/healthz is the probe"), F("// see https://x.org/docs/", "see https://x.org/docs/"), F("/// three", "/ three") }
 
 A(n, v, p, d) == [kind |-> "ann", name |-> n, value |-> v, props |-> p, desc |-> d]
 NoProps == P(NONE, "", FALSE)
